@@ -4,7 +4,9 @@
    capacity), the source (form, kind, value), the buffer (capacity, previous
    content), what the model of the current code does, and what the property
    demands (both readings of AssignSpec where the text is silent, every
-   admissible owner class).
+   admissible owner class).  A history case (input "seq=...", tag hist) is two
+   or three such calls in a row over objects that come back: see "histories"
+   below.
 
    Floats travel in the canonical form of Floats.pr_float (sign, odd mantissa,
    binary exponent) in both directions.  A float source meets a text
@@ -12,7 +14,7 @@
    (cases outside it are not generated: the model does not describe
    AppendFloat there). *)
 From Coq Require Import List Arith Bool Ascii String ZArith NArith Floats.SpecFloat.
-From Verif Require Import Util Ints Strconv Floats AssignVal Assign AssignSpec.
+From Verif Require Import Util Ints Strconv Floats AssignVal Assign AssignSpec AssignSeqVal AssignSeq AssignSeqSpec.
 Import ListNotations.
 Local Open Scope string_scope.
 
@@ -296,8 +298,200 @@ Definition matrix (cls : string) (pfx : string) (tier : Z)
         case_line (pfx ++ "t" ++ nat_to_string di ++ "." ++ nat_to_string si ++ "." ++ nat_to_string bi) cls d cap dvar src svar b)
         (number 0 nb)) (number 0 srcs)) (number 0 (text_dests tier)).
 
+(* ---------- histories: objects that come back (Model/AssignSeq.v, Spec/AssignSeqSpec.v) ---------- *)
+(* One case = two or three calls in a row.  [sreuse]: ONE source object serves every step
+   and is given the step's value before the call (the same []byte rewritten in place, in
+   value and in pointer form; a string that is the zero-copy view of such a slice; one
+   *string pointed at other text; one *T holding another value) - the model does not know
+   about it: it is a function of the values.  Destinations: fresh and of one kind, fresh
+   and of another kind at every step ("drot"), or ONE destination object receiving every
+   step ([DstReuse]).  One buffer throughout.  Observed per step: ok, destination, buffer. *)
+Definition pr_okdb (ok : bool) (d : dest) (b : option string) : string :=
+  (if ok then "T;" else "F;") ++ pr_dest d ++ ";" ++ pr_buf b.
+
+Definition pr_sout (o : sout) : string :=
+  match o with
+  | SDone ok d b => pr_okdb ok d b
+  | SPanicked NilDeref => "PANIC:nilderef"
+  | SPanicked TypeAssert => "PANIC:typeassert"
+  | SOutOfModel => "?"
+  end.
+
+Definition pr_triple (t : triple) : string := let '(ok, d, b) := t in pr_okdb ok d b.
+
+Definition sout_in_model (o : sout) : bool := match o with SOutOfModel => false | _ => true end.
+Definition sout_refused (o : sout) : bool := match o with SDone false _ _ => true | _ => false end.
+Definition sout_panicked (o : sout) : bool := match o with SPanicked _ => true | _ => false end.
+
+(* a step as the generator carries it: destination with capacity and variant, source with variant *)
+Definition gstep := ((dest * Z * string) * (source * string))%type.
+
+Definition hstep_of (g : gstep) : hstep := {| h_dst := fst (fst (fst g)); h_src := fst (snd g) |}.
+
+Inductive dplan := PSame | PRot | PReuse.
+Definition dplan_name (p : dplan) : string := match p with PSame => "dfresh" | PRot => "drot" | PReuse => "dreuse" end.
+Definition dplan_mode (p : dplan) : dmode := match p with PReuse => DstReuse | _ => DstFresh end.
+
+Definition pr_gstep (reuse_dst : bool) (i : nat) (g : gstep) : string :=
+  let '((d, cap, dvar), (src, svar)) := g in
+  "dst=" ++ (if reuse_dst && negb (Nat.eqb i 0) then "^" else pr_dst d cap dvar) ++ ";src=" ++ pr_src src svar.
+
+Definition seq_line (id cls : string) (sreuse : bool) (pl : dplan) (gs : list gstep) (b : option bufv) : list string :=
+  let bm := buf_model b in
+  let dm := dplan_mode pl in
+  let hs := map hstep_of gs in
+  let os := run_seq strfix_now dm None bm hs in
+  if forallb sout_in_model os then
+    match gs with
+    | [] => []
+    | ((d0, _, _), (s0, _)) :: _ =>
+      (* the destination kind of a reuse history never changes; of the others each step names its own *)
+      let sil := existsb (fun g : gstep => match dst_kind (fst (fst (fst g))) with
+                                           | Some k => silent k (fst (snd g)) | None => false end)
+                         (match pl with PReuse => map (fun g : gstep => ((d0, 0%Z, ""), snd g)) gs | _ => gs end) in
+      let tags := "d:" ++ (match dst_kind d0 with Some k => fam_name k | None => "foreign" end) ++ "," ++
+                  src_tag s0 ++ "," ++ bufv_tag b ++ "," ++
+                  (if existsb sout_panicked os then "panic" else if existsb sout_refused os then "refused" else "ok") ++ "," ++
+                  cls ++ ",hist," ++ (if sreuse then "sreuse" else "sfresh") ++ "," ++ dplan_name pl ++
+                  (if sil then ",silent" else "") in
+      [id ++ tab ++ tags ++ tab ++
+       "seq=" ++ (if sreuse then "sreuse" else "sfresh") ++ "," ++
+                 (match pl with PReuse => "dreuse" | _ => "dfresh" end) ++ ";buf=" ++ pr_bufv b ++ "/" ++
+       join "/" (map (fun ig : nat * gstep => pr_gstep (match pl with PReuse => true | _ => false end) (fst ig) (snd ig)) (number 0 gs)) ++ tab ++
+       join "/" (map pr_sout os) ++ tab ++
+       join " || " (dedup (map (fun ts : list triple => join "/" (map pr_triple ts)) (seq_allowed rf dm None bm hs)))]
+    end
+  else [].
+
+(* destinations of the histories: every kind, previous content never empty, bytes tight and roomy *)
+Definition hist_dests : list (dest * Z * string) :=
+  [(DPtr (VBool false), 0%Z, "")] ++
+  map (fun k => (DPtr (VInt k 99), 0%Z, "")) all_ikinds ++
+  [(DPtr (VF32 (to_f32 (fv "99.5"))), 0%Z, ""); (DPtr (VF64 (fv "99.5")), 0%Z, "");
+   (DPtr (VStr "old"), 0%Z, ""); (DPtr (VBytes "old"), 3%Z, ""); (DPtr (VBytes "old"), 64%Z, "")].
+
+Definition dflt_dest : dest * Z * string := (DPtr (VBool false), 0%Z, "").
+
+(* cyclic windows of three neighbours, forwards and backwards: every ordered pair of neighbours is a
+   (step i, step i+1) of some history *)
+Definition windows_fwd {A} (d : A) (l : list A) : list (list A) :=
+  let n := List.length l in
+  map (fun i => [nth i l d; nth ((i + 1) mod n)%nat l d; nth ((i + 2) mod n)%nat l d]) (seq 0 n).
+Definition windows_bwd {A} (d : A) (l : list A) : list (list A) := map (@rev A) (windows_fwd d l).
+
+(* texts of ONE length (what rewriting a slice in place produces): numbers of each family, garbage,
+   numbers the neighbour's family refuses *)
+Definition texts_len3 : list string :=
+  ["123"; "456"; "-7x"; "-45"; "+45"; "1.5"; "1e3"; ".25"; "300"; "0x1"; "007"; "abc"].
+Definition texts_len4 : list string :=
+  ["true"; "truE"; "1234"; "fals"; "0000"; "TRUE"; "-1.5"; "4e-1"].
+(* lengths that grow and shrink inside the object's capacity *)
+Definition texts_mixed : list string :=
+  ["7"; "123456"; "42"; ""; "-1"; "1e2"; "99999"; "true"; "x"].
+
+(* the forms of a text source object that can be rewritten: []byte, *[]byte, string view, *string *)
+Definition text_forms : list (string -> source) :=
+  [fun t => SVal (VBytes t); fun t => SPtr (VBytes t); fun t => SVal (VStr t); fun t => SPtr (VStr t)].
+
+Definition is_text_src (s : source) : bool :=
+  match s with SVal (VStr _) | SPtr (VStr _) | SVal (VBytes _) | SPtr (VBytes _) => true | _ => false end.
+
+Definition plans : list dplan := [PReuse; PSame; PRot].
+
+(* one history: the sources of the steps, the destination (index [di]) and plan, a buffer.
+   A reused text source in a reused text destination is left out (the destination would be an
+   alias of the slice that is being rewritten: the model has no memory to describe that); such a
+   history is run with fresh destinations instead. *)
+Definition hist_case (id cls : string) (sreuse : bool) (pl : dplan) (di : nat) (srcs : list (source * string))
+           (b : option bufv) : list string :=
+  let nd := List.length hist_dests in
+  let d0 := nth di hist_dests dflt_dest in
+  let pl' := match pl with
+             | PReuse => if sreuse && text_dest (fst (fst d0)) && existsb (fun sv : source * string => is_text_src (fst sv)) srcs
+                         then PSame else PReuse
+             | _ => pl
+             end in
+  let gs := map (fun js : nat * (source * string) =>
+                   let d := match pl' with PRot => nth ((di + 5 * fst js) mod nd)%nat hist_dests dflt_dest | _ => d0 end in
+                   (d, snd js)) (number 0 srcs) in
+  seq_line id cls sreuse pl' gs b.
+
+(* [cross]: every form x every plan (thorough tier); otherwise forms x rotating plan, or both rotating *)
+Definition text_hists (pfx : string) (tier : Z) (all_forms : bool) (ws : list (list string)) : list string :=
+  let nb := bufs tier in
+  flat_map (fun tw : nat * list string =>
+    let '(ti, w) := tw in
+    flat_map (fun ds : nat * (dest * Z * string) =>
+      let di := fst ds in
+      let forms := if all_forms || negb (Z.eqb tier 0) then number 0 text_forms
+                   else let fi := ((ti + di) mod 4)%nat in [(fi, nth fi text_forms (fun t => SVal (VBytes t)))] in
+      flat_map (fun ff : nat * (string -> source) =>
+        let '(fi, f) := ff in
+        let pls := if Z.eqb tier 0 then let pi := ((ti + di + fi) mod 3)%nat in [(pi, nth pi plans PSame)] else number 0 plans in
+        flat_map (fun pp : nat * dplan =>
+          let '(pi, pl) := pp in
+          hist_case (pfx ++ nat_to_string ti ++ "." ++ nat_to_string di ++ "." ++ nat_to_string fi ++ "." ++ nat_to_string pi)
+                    "rewritten" true pl di (map (fun t => (f t, "")) w)
+                    (nth ((ti + di + fi) mod List.length nb)%nat nb None)) pls) forms)
+      (number 0 hist_dests)) (number 0 ws).
+
+(* one *T holding value after value *)
+Definition scalar_triples : list (list sval) :=
+  flat_map (fun k =>
+    let vs := ints_of k in
+    let n := List.length vs in
+    map (map (VInt k)) [firstn 3 vs; firstn 3 (rev vs); [nth 1 vs 0%Z; nth (n - 1) vs 0%Z; nth 1 vs 0%Z]]) all_ikinds ++
+  map (map (fun t => VF64 (fv t))) [["1"; "-2.75"; "0"]; ["0.5"; "1234.5"; "0.5"]] ++
+  [map VF64 [S754_nan; fv "1"; S754_infinity false]] ++
+  map (map (fun t => VF32 (to_f32 (fv t)))) [["1"; "-2.75"; "-0"]; ["0.0625"; "16777216"; "0.0625"]] ++
+  [[VF32 (S754_infinity true); VF32 (to_f32 (fv "0.5")); VF32 S754_nan]] ++
+  [[VBool true; VBool false; VBool true]; [VBool false; VBool false; VBool true]].
+
+Definition scalar_hists (tier : Z) : list string :=
+  let nb := bufs tier in
+  flat_map (fun tw : nat * list sval =>
+    let '(ti, w) := tw in
+    flat_map (fun ds : nat * (dest * Z * string) =>
+      let di := fst ds in
+      let pls := if Z.eqb tier 0 then let pi := ((ti + di) mod 3)%nat in [(pi, nth pi plans PSame)] else number 0 plans in
+      flat_map (fun pp : nat * dplan =>
+        let '(pi, pl) := pp in
+        hist_case ("hp" ++ nat_to_string ti ++ "." ++ nat_to_string di ++ "." ++ nat_to_string pi)
+                  "repointed" true pl di (map (fun v => (SPtr v, "")) w)
+                  (nth ((ti + di) mod List.length nb)%nat nb None)) pls)
+      (number 0 hist_dests)) (number 0 scalar_triples).
+
+(* the reverse: ONE destination, sources of every kind built anew for every step (a refusal in the
+   middle must keep what the step before stored) *)
+Definition mixed_sources : list (source * string) :=
+  [(SVal (VInt KInt 42), ""); (SPtr (VStr "-7"), ""); (SVal (VBytes "x"), ""); (SVal (VBool true), "");
+   (SPtr (VF64 (fv "1.5")), ""); (SVal (VStr "true"), ""); (SPtr (VInt KUint8 200), ""); (SForeign, "struct");
+   (SVal (VBytes "300"), ""); (SVal (VF32 (to_f32 (fv "0.5"))), ""); (SPtr (VBytes "1e3"), "");
+   (SVal (VInt KInt64 (-1)), ""); (SVal (VStr ""), ""); (SPtr (VBool false), "");
+   (SVal (VInt KUint64 18446744073709551615), ""); (SForeign, "nilif")].
+
+Definition mixed_hists (tier : Z) : list string :=
+  let nb := bufs tier in
+  flat_map (fun tw : nat * list (source * string) =>
+    let '(ti, w) := tw in
+    flat_map (fun ds : nat * (dest * Z * string) =>
+      let di := fst ds in
+      hist_case ("hm" ++ nat_to_string ti ++ "." ++ nat_to_string di) "mixed" false PReuse di w
+                (nth ((ti + di) mod List.length nb)%nat nb None))
+      (number 0 hist_dests))
+    (number 0 (windows_fwd (SForeign, "struct") mixed_sources ++
+               (if Z.eqb tier 0 then [] else windows_bwd (SForeign, "struct") mixed_sources))).
+
+Definition histories (tier : Z) : list string :=
+  text_hists "ha" tier true (windows_fwd "" texts_len3) ++
+  text_hists "hb" tier false (windows_bwd "" texts_len3) ++
+  text_hists "hc" tier false (windows_fwd "" texts_len4 ++ windows_bwd "" texts_len4) ++
+  text_hists "hd" tier false (windows_fwd "" texts_mixed ++ windows_bwd "" texts_mixed) ++
+  scalar_hists tier ++ mixed_hists tier.
+
 (* tier 0 = quick, 1 = thorough *)
 Definition cases (tier : Z) (seed : Z) : list string :=
   let '(rv, _) := rnd_vals (if Z.eqb tier 0 then 60 else 1500) (rng_of_seed seed) in
   matrix "boundary" "m" tier (sources_of (val_sources tier)) ++
-  matrix "random" "r" tier (flat_map (fun v => [(SVal v, ""); (SPtr v, "")]) rv).
+  matrix "random" "r" tier (flat_map (fun v => [(SVal v, ""); (SPtr v, "")]) rv) ++
+  histories tier.
